@@ -36,6 +36,7 @@ type Engine struct {
 	InitPrefixes  []string // packages (path prefixes) whose initialisers are executed
 	Coverage      map[string]int
 	covMu         sync.Mutex
+	fnInfos       sync.Map
 
 	intrinsics         map[string]intrinsicFn
 	vf                 map[string]intrinsicFn
@@ -59,9 +60,13 @@ func NewEngine(prog *ssa.Program) *Engine {
 	return e
 }
 
-func (e *Engine) noteFunc(name string) {
+func (m *Machine) noteFunc(name string) { m.cov[name]++ }
+
+func (e *Engine) mergeCov(c map[string]int) {
 	e.covMu.Lock()
-	e.Coverage[name]++
+	for k, v := range c {
+		e.Coverage[k] += v
+	}
 	e.covMu.Unlock()
 }
 
@@ -164,6 +169,7 @@ type Machine struct {
 	printed   []string
 	observed  []rawObs
 	pending   []pendingOb
+	cov       map[string]int
 	nonneg    map[*smt.Term]bool
 	chooseVals map[string]int
 	chooseOrder []string
@@ -805,7 +811,7 @@ func (e *Engine) runPath(fn *ssa.Function, it workItem, ws *workerSolvers) (pr *
 	m := &Machine{
 		eng: e, pool: smt.NewPool(), ws: ws, sess: ws.lia, lia: lia,
 		globals: map[*ssa.Global]*value{}, prefix: append([]int{}, it.prefix...), model: it.model,
-		known: map[string]*smt.Term{}, nonneg: map[*smt.Term]bool{}, res: pr, harness: fn.Name(), onceDone: map[*value]bool{},
+		cov: map[string]int{}, known: map[string]*smt.Term{}, nonneg: map[*smt.Term]bool{}, res: pr, harness: fn.Name(), onceDone: map[*value]bool{},
 		declared: map[string]bool{}, pcSet: map[*smt.Term]bool{}, chooseVals: map[string]int{},
 	}
 	if m.model == nil {
@@ -817,6 +823,7 @@ func (e *Engine) runPath(fn *ssa.Function, it workItem, ws *workerSolvers) (pr *
 		if m.bvPushed {
 			ws.bv.Pop()
 		}
+		e.mergeCov(m.cov)
 		pr.Decisions = m.prefix
 		pr.Steps = m.steps
 		pr.PCSize = len(m.pc)
